@@ -32,6 +32,7 @@ type Config struct {
 	Invoke     string   `json:"invoke,omitempty"` // srcdot | rootrel | foreignabs
 	Out        string   `json:"out,omitempty"`    // "" = stdout; else path relative to the world root
 	Rm         bool     `json:"rm,omitempty"`
+	RelOut     bool     `json:"rel_out,omitempty"`  // pass -out relative to the working directory instead of absolute
 	RawArgv    []string `json:"raw_argv,omitempty"` // if set: used verbatim (C17/C19 hostile invocations)
 }
 
@@ -232,7 +233,13 @@ func (c *Case) Argv(world string) (argv []string, cwd string) {
 		argv = append(argv, "-rm")
 	}
 	if cfg.Out != "" {
-		argv = append(argv, "-out", filepath.Join(root, cfg.Out))
+		out := filepath.Join(root, cfg.Out)
+		if cfg.RelOut {
+			if rel, err := filepath.Rel(cwd, out); err == nil {
+				out = rel
+			}
+		}
+		argv = append(argv, "-out", out)
 	}
 	argv = append(argv, srcArg)
 	argv = append(argv, cfg.Args...)
